@@ -126,6 +126,10 @@ pub struct Case {
     pub api: Api,
     pub framing: Framing,
     pub segs: Vec<Seg>,
+    /// the request itself carries a Content-Type with a charset (1: post().text(), which adds `charset=utf-8`; 2: a
+    /// hand-set `text/html; charset=shift_jis`): it says nothing about the response
+    #[serde(default)]
+    pub request_ct: u8,
 }
 
 pub struct C18;
@@ -299,9 +303,9 @@ identical result across segmentations and reader styles (all bodies), never Err.
             prop_oneof![3 => Just(None), 1 => (0..n).prop_map(|e| Some(Some(e))), 1 => Just(Some(None))],
             api,
             crate::props::c01::framing_strategy(),
-            proptest::collection::vec(seg(), 1..4),
+            (proptest::collection::vec(seg(), 1..4), prop_oneof![4 => Just(0u8), 1 => Just(1u8), 1 => Just(2u8)]),
         )
-            .prop_map(|(body, ct, session_default, request_default, api, framing, segs)| Case {
+            .prop_map(|(body, ct, session_default, request_default, api, framing, (segs, request_ct))| Case {
                 body,
                 ct,
                 session_default,
@@ -309,11 +313,13 @@ identical result across segmentations and reader styles (all bodies), never Err.
                 api,
                 framing,
                 segs,
+                request_ct,
             })
             .boxed()
     }
 
     fn check(case: &Case, ctx: &mut Ctx) -> Outcome {
+        ctx.label_if(case.request_ct != 0, "request-carries-its-own-charset");
         let t = table();
         let body = case.body.bytes();
         // the body is the same in every variant; when the *content* charset should match the header, bias: half of the
@@ -361,11 +367,16 @@ identical result across segmentations and reader styles (all bodies), never Err.
             if let Some(e) = case.session_default {
                 session.default_charset(Some(enc_of(e)));
             }
-            let mut rb = session.get(BASE_URL);
+            let mut rb = if case.request_ct == 1 { session.post(BASE_URL) } else { session.get(BASE_URL) };
             if let Some(x) = case.request_default {
                 rb = rb.default_charset(x.map(enc_of));
             }
-            let resp = match rb.send() {
+            let sent = match case.request_ct {
+                1 => rb.text("caf\u{e9}").send(),
+                2 => rb.header("Content-Type", "text/html; charset=shift_jis").send(),
+                _ => rb.send(),
+            };
+            let resp = match sent {
                 Ok(r) => r,
                 Err(e) => return Outcome::fail("C18:send-failed", format!("{e:?}")),
             };
@@ -448,11 +459,16 @@ identical result across segmentations and reader styles (all bodies), never Err.
             if let Some(e) = case.session_default {
                 session.default_charset(Some(enc_of(e)));
             }
-            let mut rb = session.get(BASE_URL);
+            let mut rb = if case.request_ct == 1 { session.post(BASE_URL) } else { session.get(BASE_URL) };
             if let Some(x) = case.request_default {
                 rb = rb.default_charset(x.map(enc_of));
             }
-            if let Ok(resp) = rb.send() {
+            let sent = match case.request_ct {
+                1 => rb.text("caf\u{e9}").send(),
+                2 => rb.header("Content-Type", "text/html; charset=shift_jis").send(),
+                _ => rb.send(),
+            };
+            if let Ok(resp) = sent {
                 let got: Result<String, String> = match &dual {
                     Api::Text => resp.text().map_err(|e| format!("{e:?}")),
                     Api::TextWith(e) => resp.text_with(enc_of(*e)).map_err(|e| format!("{e:?}")),
